@@ -1,6 +1,7 @@
 import RdsProofs.Reach
 import RdsProofs.ExtraProofs
 import RdsProofs.CellsProofs
+import RdsProofs.AuditC07
 /-!
 # Property C07 — progressive correction only ever improves a character cell
 
@@ -15,6 +16,14 @@ init/clear no cell level of that text increases, except in the RT buffer that an
 -- THEOREM: RDS.C07_level0_sticky_ps
 -- THEOREM: RDS.C07_cell
 -- THEOREM: RDS.C07_error_free_stable
+-- THEOREM: RDS.C07_history_rt
+-- THEOREM: RDS.C07_history_rt_keeps
+-- THEOREM: RDS.C07_history_text
+-- THEOREM: RDS.C07_char_replaced_only_by_not_worse
+-- THEOREM: RDS.C07_error_free_sticky
+-- THEOREM: RDS.C07_error_free_sticky_history
+-- THEOREM: RDS.C07_converges
+-- THEOREM: RDS.C07_converges_string
 namespace RDS
 
 /-- C07 for every history and every next call -/
